@@ -57,16 +57,27 @@ def rotation_diag(env, c, n, d=2):
     return refs.kron_all(T, locs)
 
 
-def trig_zero_lemma(env, angles):
+def trig_zero_lemma(env, phi, c):
     """The symbolic executor abstracts cos/sin of a *variable* x with the axiom `x = 0 => (cos, sin) = (1, 0)`
     and expands cos/sin of a sum by the addition formulas.  RydbergHamiltonian branches on `phis.any()`, so the
-    same axiom is needed for the linear forms phi_k + c: instantiate it (a true fact about cos/sin)."""
+    same axiom is needed for the linear forms phi_k + c: instantiate it (true facts about cos/sin):
+    phi_k + c = 0  =>  cos(phi_k + c) = 1, sin(phi_k + c) = 0, cos(phi_k) = cos(c), sin(phi_k) = -sin(c)."""
     T = env.torch
-    for k in range(angles.shape[0]):
-        a = angles[k]
+    cc, sc = scalar(T.cos(c)), scalar(T.sin(c))
+    for k in range(phi.shape[0]):
+        a = phi[k] + c
         env.assume(
-            b_implies(scalar(a) == 0, b_and(scalar(T.cos(a)) == 1, scalar(T.sin(a)) == 0)),
-            "phi_k + c = 0 => cos(phi_k + c) = 1, sin(phi_k + c) = 0 (instance of the trig axiom schema)",
+            b_implies(
+                scalar(a) == 0,
+                b_and(
+                    scalar(T.cos(a)) == 1,
+                    scalar(T.sin(a)) == 0,
+                    scalar(T.cos(phi[k])) == cc,
+                    scalar(T.sin(phi[k])) == -sc,
+                ),
+            ),
+            "phi_k + c = 0 => cos(phi_k + c) = 1, sin(phi_k + c) = 0, cos phi_k = cos c, sin phi_k = -sin c "
+            "(instances of the trig axiom schema)",
         )
 
 
@@ -93,7 +104,7 @@ def sv_offset(n, zero_phase):
         c, cvec = _offset(env, n)
         v = env.tensor_cplx("v", (2**n,))
         r = rotation_diag(env, c, n)
-        trig_zero_lemma(env, phi + cvec)
+        trig_zero_lemma(env, phi, c)
         h0 = _sv_ham(env, omega, delta, phi, U)
         h1 = _sv_ham(env, omega, delta, phi + cvec, U)
         lhs = h1 * (r * v)
